@@ -210,10 +210,10 @@ class Path:
         return out
 
     def index(self, item):
-        return self.items.index(item)
+        return self._pos(item)
 
     def before(self, a, b):
-        return self.items.index(a) < self.items.index(b)
+        return self._pos(a) < self._pos(b)
 
     # -- feasibility -----------------------------------------------------------
     def feasible(self):
